@@ -500,8 +500,9 @@ func kv(body string) map[string]string {
 
 // events extracts (tag, id, col, row) for each placement control sequence and (2, id, 0, 0) for
 // each complete image upload, in output order
-func events(b []byte) (evs [][4]int) {
-	toks := tokenize(b)
+func events(b []byte) (evs [][4]int) { return eventsOf(tokenize(b)) }
+
+func eventsOf(toks []token) (evs [][4]int) {
 	for i, t := range toks {
 		if t.kind == 3 {
 			// a sixel string: parameters, 'q', data
@@ -574,11 +575,19 @@ type history struct {
 	drawn   map[int][2]int
 	direct  *[]hx.DirectViolation
 	stale   int
+	// kitty: the source of every image and the picture of its last Resize (for the kittytx stream)
+	srcs  map[int]image.Image
+	pics  map[int]image.Image
+	boxes map[int][2]int
+	// terminal size, and whether the size-changed branch of Render ran since the last frame
+	rows, cols  int
+	termResized bool
 }
 
 func newHistory(cfg *hx.Config, sixel bool, direct *[]hx.DirectViolation) *history {
 	h := &history{cfg: cfg, sixel: sixel, stream: "placement", tags: map[string]bool{}, pending: map[int]bool{},
-		drawn: map[int][2]int{}, direct: direct}
+		drawn: map[int][2]int{}, direct: direct, srcs: map[int]image.Image{}, pics: map[int]image.Image{}, boxes: map[int][2]int{},
+		rows: 24, cols: 80}
 	if sixel {
 		h.stream = "sixel"
 	}
@@ -598,7 +607,57 @@ func (h *history) newImage(src image.Image) placeable {
 	if h.sixel {
 		return h.vx.NewSixel(src)
 	}
-	return h.vx.NewKittyGraphic(src)
+	k := h.vx.NewKittyGraphic(src)
+	h.srcs[int(k.VerifID())] = src
+	return k
+}
+
+// termResize: the terminal reports a new size (in-band report CSI 48 ; rows ; cols ; ypix ; xpix t,
+// cells stay 8 x 16 pixels) and the application calls Render (or Refresh).  When the size differs
+// the call takes the size-changed branch: it writes nothing and draws no frame (op 5); the frame
+// after it is a full refresh.  A report of the size the terminal already has changes nothing: the
+// call is an ordinary frame.
+func (h *history) termResize(rows, cols int, byRefresh bool) {
+	changed := rows != h.rows || cols != h.cols
+	h.fc.SetSize(rows, cols)
+	h.fc.InjectString(fmt.Sprintf("\x1b[48;%d;%d;%d;%dt", rows, cols, rows*16, cols*8))
+	deadline := time.Now().Add(20 * time.Second)
+	for {
+		st := h.vx.VerifC03State()
+		if st.ResizeFlag && st.NextSize.Rows == rows && st.NextSize.Cols == cols {
+			break
+		}
+		if time.Now().After(deadline) {
+			panic("the size report did not reach Vaxis")
+		}
+		time.Sleep(50 * time.Microsecond)
+	}
+	if !changed {
+		h.tags["size-report-same-size"] = true
+		h.render(byRefresh)
+		return
+	}
+	if byRefresh {
+		h.vx.Refresh()
+	} else {
+		h.vx.Render()
+	}
+	h.addOp(5, 0, 0, 0, 0, 0, 0, 0)
+	h.tags["term-resize"] = true
+	if out := h.fc.Take(); len(eventsOf(tokenize(out))) != 0 {
+		*h.direct = append(*h.direct, hx.DirectViolation{Class: "resize-branch-writes-graphics",
+			Case: map[string]interface{}{"stream": h.stream, "ops": h.opsJ, "output": string(out)},
+			What: "the Render that notices a new terminal size wrote graphics commands (it must draw nothing)"})
+	}
+	if ws := h.vx.VerifWinSize(); ws.Rows != rows || ws.Cols != cols {
+		panic(fmt.Sprintf("Render did not take the new size: %+v", ws))
+	}
+	h.rows, h.cols = rows, cols
+	h.termResized = true
+	// the screens were made anew: an application gets its window again; what Sixel.Draw marked
+	// before is gone (the refresh marks it again)
+	h.root = h.vx.Window()
+	h.cleared = false
 }
 
 func (h *history) clear() {
@@ -611,6 +670,12 @@ func (h *history) clear() {
 func (h *history) resize(k placeable, w, ht int) {
 	k.Resize(w, ht)
 	waitIdle(k.VerifEncoding)
+	if src := h.srcs[int(k.VerifID())]; src != nil {
+		ws := h.vx.VerifWinSize()
+		if rsz := vaxis.VerifResizeImage(src, w, ht, ws.XPixel/ws.Cols, ws.YPixel/ws.Rows); rsz.Bounds().Max.X > 0 && rsz.Bounds().Max.Y > 0 {
+			h.pics[int(k.VerifID())], h.boxes[int(k.VerifID())] = rsz, [2]int{w, ht}
+		}
+	}
 	h.pending[int(k.VerifID())] = true
 	h.addOp(4, int(k.VerifID()), 0, 0, 0, 0, 0, 0)
 }
@@ -662,7 +727,11 @@ func (h *history) render(refresh bool) {
 		h.vx.Render()
 		h.addOp(2, 0, 0, 0, 0, 0, 0, 0)
 	}
-	evs := events(h.fc.Take())
+	toks := tokenize(h.fc.Take())
+	evs := eventsOf(toks)
+	for id, pic := range h.pics {
+		recordTx(toks, id, pic, h.srcs[id], h.boxes[id], "placement")
+	}
 	if h.sixel {
 		// a sixel string carries no identifier, so the transmission clause is checked here:
 		// an image re-encoded since its last write and drawn in this frame must be written
@@ -700,12 +769,17 @@ func (h *history) render(refresh bool) {
 		es = append(es, hx.Tuple(z(e[0]), z(e[1]), z(e[2]), z(e[3])))
 		ej = append(ej, []int{e[0], e[1], e[2], e[3]})
 	}
+	// a full refresh: Refresh(), or the first frame after a change of the terminal size
 	rf := 0
-	if refresh {
+	if refresh || h.termResized {
 		rf = 1
 	}
+	if h.termResized {
+		h.tags["frame-after-term-resize"] = true
+	}
+	h.termResized = false
 	h.frames = append(h.frames, hx.Tuple(z(rf), hx.List(ps), hx.List(es)))
-	h.framesJ = append(h.framesJ, map[string]interface{}{"refresh": refresh, "graphicsNext": pj, "events": ej})
+	h.framesJ = append(h.framesJ, map[string]interface{}{"refresh": rf == 1, "graphicsNext": pj, "events": ej})
 }
 
 func (h *history) finish(s *hx.Stream, nontrivial bool) {
@@ -748,8 +822,70 @@ func corpusPlacement(cfg *hx.Config, s *hx.Stream, direct *[]hx.DirectViolation,
 	h.finish(s, true)
 }
 
+// corpusTermResize: directed histories around a change of the terminal size between two frames.
+// The frame after it is a full refresh; what was placed before must be deleted from the terminal
+// (moved, dropped or kept by the application) and what is drawn must be placed, whichever of Render
+// and Refresh notices the new size, also after two changes in a row and before the first frame.
+func corpusTermResize(cfg *hx.Config, s *hx.Stream, direct *[]hx.DirectViolation, sixel bool) {
+	for v := 0; v < 8; v++ {
+		h := newHistory(cfg, sixel, direct)
+		k := h.newImage(gradient(40, 40, 1))
+		k2 := h.newImage(gradient(24, 30, 2))
+		h.resize(k, 4, 3)
+		h.resize(k2, 3, 2)
+		if v == 6 {
+			h.termResize(20, 60, false) // before the first frame
+		}
+		h.clear()
+		h.draw(k, 2, 3, 10, 5, false)
+		if v >= 4 {
+			h.draw(k2, 20, 1, 10, 5, false)
+		}
+		h.render(false)
+		byRefresh := v%2 == 1
+		switch v {
+		case 5:
+			h.termResize(30, 100, byRefresh)
+			h.termResize(28, 90, !byRefresh) // twice in a row
+		case 7:
+			h.termResize(24, 80, byRefresh) // a report of the same size: an ordinary frame
+			h.termResize(30, 100, byRefresh)
+		default:
+			h.termResize(30, 100, byRefresh)
+		}
+		h.clear()
+		switch v {
+		case 0, 1, 5, 7: // moved by the new layout
+			h.draw(k, 5, 4, 10, 5, false)
+			h.tags["move"] = true
+		case 2, 4: // dropped (of two: one dropped, one kept)
+			if v == 4 {
+				h.draw(k2, 20, 1, 10, 5, false)
+			}
+			h.tags["drop"] = true
+		default: // kept where it was
+			h.draw(k, 2, 3, 10, 5, false)
+			h.tags["keep"] = true
+		}
+		if v == 4 {
+			// the size changes after the frame was drawn, just before it is rendered
+			h.termResize(26, 84, byRefresh)
+		}
+		h.render(false)
+		h.clear()
+		if v != 2 {
+			h.draw(k, 5, 4, 10, 5, false)
+		}
+		h.render(false)
+		h.render(false)
+		h.tags["corpus"] = true
+		h.finish(s, true)
+	}
+}
+
 func genPlacement(cfg *hx.Config, s *hx.Stream, direct *[]hx.DirectViolation, sixel bool) {
 	corpusPlacement(cfg, s, direct, sixel)
+	corpusTermResize(cfg, s, direct, sixel)
 	n := 250
 	if cfg.Thorough() {
 		n = 5000
@@ -777,7 +913,28 @@ func genPlacement(cfg *hx.Config, s *hx.Stream, direct *[]hx.DirectViolation, si
 		}
 		clearEvery := cfg.Rand.Intn(6) != 0 // most applications clear every frame
 		nframes := 3 + cfg.Rand.Intn(8)
+		// one history in three lives in a terminal whose size changes now and then
+		resizing := cfg.Rand.Intn(3) == 0
+		newSize := func() (int, int) {
+			switch cfg.Rand.Intn(8) {
+			case 0:
+				return h.rows, h.cols // a report that changes nothing
+			case 1:
+				return 6 + cfg.Rand.Intn(10), 20 + cfg.Rand.Intn(30) // small: windows are cut
+			default:
+				return 16 + cfg.Rand.Intn(16), 50 + cfg.Rand.Intn(60)
+			}
+		}
 		for f := 0; f < nframes; f++ {
+			lateResize := false
+			if resizing && cfg.Rand.Intn(3) == 0 {
+				if cfg.Rand.Intn(4) == 0 {
+					lateResize = true
+				} else {
+					r, c := newSize()
+					h.termResize(r, c, cfg.Rand.Intn(3) == 0)
+				}
+			}
 			if clearEvery || cfg.Rand.Intn(3) == 0 {
 				h.clear()
 			} else {
@@ -831,9 +988,14 @@ func genPlacement(cfg *hx.Config, s *hx.Stream, direct *[]hx.DirectViolation, si
 				}
 				h.draw(m.k, m.col, m.row, ww, wh, cfg.Rand.Intn(3) == 0)
 			}
+			if lateResize {
+				// the size changes after the frame was drawn, before it is rendered
+				r, c := newSize()
+				h.termResize(r, c, cfg.Rand.Intn(3) == 0)
+			}
 			h.render(cfg.Rand.Intn(7) == 0)
 		}
-		h.finish(s, h.tags["move"] || h.tags["drop"] || h.tags["refresh"] || h.tags["resize"])
+		h.finish(s, h.tags["move"] || h.tags["drop"] || h.tags["refresh"] || h.tags["resize"] || h.tags["term-resize"])
 	}
 }
 
@@ -1296,6 +1458,8 @@ type gfxHist struct {
 	enc      bool        // the last Resize gave a picture that is not empty, no Destroy since
 	termData image.Image // kitty: the picture the terminal holds for the image id
 	shows    int
+	lastPic  image.Image // the picture of the last Resize that gave one (what an encoding exists of)
+	picBox   [2]int
 }
 
 func newGfxHist(cfg *hx.Config, sixel bool, src image.Image) *gfxHist {
@@ -1334,6 +1498,9 @@ func (g *gfxHist) resize(w, h int) {
 	m := g.lastRsz.Bounds().Max
 	g.enc = m.X > 0 && m.Y > 0
 	g.lastBox = [2]int{w, h}
+	if g.enc {
+		g.lastPic, g.picBox = g.lastRsz, [2]int{w, h}
+	}
 	g.add(0, w, h, oc, m.X, m.Y, 0, 0, 0, 0, 0, "Resize")
 	ow, oh := g.img.CellSize()
 	if len(g.ops) > 1 {
@@ -1374,6 +1541,9 @@ func (g *gfxHist) show(ww, wh int) {
 	snap := g.vx.VerifGraphicsNext()
 	g.vx.Refresh()
 	toks := tokenize(g.fc.Take())
+	if !g.sixel {
+		recordTx(toks, id, g.lastPic, g.src, g.picBox, "gfxhist")
+	}
 	puts, sent, dels, bad := 0, 0, 0, false
 	var payload strings.Builder
 	var sixelData *sixelPic
@@ -1782,6 +1952,9 @@ func main() {
 	ps.ShardMax = 250
 	extra := genPixels(cfg, ps, &direct)
 
+	txStream = hx.NewStream("kittytx", "model.Image", "tx_case", "c20_kittytx_mismatches", "c20_kittytx_violations")
+	txStream.ShardMax = 1500
+
 	pl := hx.NewStream("placement", "model.Image", "placement_case", "c20_placement_mismatches", "c20_placement_violations")
 	pl.ShardMax = 400
 	pl.Known = "c20_known"
@@ -1803,7 +1976,11 @@ func main() {
 		gh := hx.NewStream("gfxhist", "model.ImageHist", "gfxhist_case", "c20_gfxhist_mismatches", "c20_gfxhist_violations")
 		gh.ShardMax = 300
 		genGfxHist(cfg, gh)
+		for k, v := range genKittyTx(cfg, gh) {
+			extra[k] = v
+		}
 		extra["sixel_rows_below_picture"] = fmt.Sprint(sixelPadRows)
+		extra["kittytx_payload_classes"] = fmt.Sprint(txStats)
 		histStreams = append(histStreams, bh, gh)
 	}
 
@@ -1819,10 +1996,12 @@ func main() {
 		"cellsize: Resize+CellSize of real half-block/full-block/kitty/sixel images (non-trivial = scaled); "+
 		"pixels: block images of random NRGBA/RGBA/NRGBA64 pixels over every alpha level, drawn through Window.SetCell onto a sentinel screen and read back (all non-trivial); "+
 		"placement: a fixed corpus history (recorded finding resize-same-cells) and random add/keep/move/resize/drop/refresh histories of kitty images on a fake console, placement and image-data control sequences parsed from the output (non-trivial = contains a move, drop, resize or refresh); "+
+		"both with changes of the terminal size between frames (in-band size report, then Render or Refresh takes the size-changed branch; directed: placement moved / dropped / kept in the frame after it, two changes in a row, before the first frame, after the frame was drawn, a report of the same size; random: one history in three), the terminal's placement table replayed from the output; "+
+		"kittytx: every transmission of a KittyImage's picture found in the output of the placement and gfxhist histories as (m flag, payload size) per chunk up to the a=p command, payload compared with the harness's own PNG/base64 encoding of resizeImage's picture, plus pictures found by a bounded deterministic search whose payload is a whole number of 4096-byte chunks, one base64 group less and one more, kept and scaled (non-trivial = more than one chunk); "+
 		"sixel: the same histories with Sixel images, sixel strings located in the output, marked cells compared with the drawn rectangles; "+
 		"blockhist: one half-block / full-block object per case on pictures with opaque, transparent and threshold-alpha bands, checkerboards and random alpha, and a history of Resize (fitting, growing, shrinking, equal, empty boxes), Draw (into a window of the image's size, a cell more, or smaller so that the image is cut; the cells that changed on a sentinel screen, relative to the window) and Destroy, directed and random (non-trivial = a Draw after a second Resize); "+
 		"gfxhist: one KittyImage / Sixel per case and a history of Resize (random, equal, neighbouring, empty boxes; thin pictures that scale to an empty one), Show (also before the first Resize, after Destroy and after a Resize into an empty box; Clear, Draw into a roomy / exact / too small window, Refresh; placement from graphicsNext, placement deletions counted, transmitted PNG / sixel data decoded and compared with resizeImage's picture) and Destroy (non-trivial = two Resizes and a Show); "+
 		"quantiser (direct checks, no model): octreequant.Paletted on images of at most 254 colours must reproduce every pixel; "+
 		"float: hardware float64(a)/float64(b)*float64(k) against the integer-only rounding model (non-trivial = inexact)",
-		append([]*hx.Stream{rs, cs, ps, pl, sx, fs}, histStreams...), extra, direct)
+		append([]*hx.Stream{rs, cs, ps, pl, sx, fs, txStream}, histStreams...), extra, direct)
 }
